@@ -1,0 +1,7 @@
+//go:build !verif
+
+package apifu
+
+import "github.com/ccbrown/api-fu/graphql"
+
+func verifAsync(string, ...graphql.ResolvePromise) {}
